@@ -445,6 +445,7 @@ func compare(yylex yyLexer, l expr, op string, r expr) (x expr) {
 // Eval evaluates an arithmetic expression.
 func (env *ExecEnv) Eval(expr string) (n int, err error) {
 	l := newLexer(env, strings.NewReader(expr))
+	defer verifYield(verifReturn, l)
 	defer func() {
 		if e := recover(); e != nil {
 			l.Error(e.(error).Error())
@@ -453,5 +454,6 @@ func (env *ExecEnv) Eval(expr string) (n int, err error) {
 	}()
 
 	yyParse(l)
+	verifYield(verifPreReturn, l)
 	return l.n, l.err
 }
